@@ -451,10 +451,7 @@ def run_shard(shard, tier, seed, rec):
                     continue
                 meta = type(cv)
                 if not issubclass(meta, PluginMetaclassMixin):
-                    # the refusal is implemented by PluginMetaclassMixin; groups whose plugin base class
-                    # does not use it (harvester, packer, widget) never promised it -> not asserted
-                    rec.cls("installed_plugin_without_plugin_metaclass")
-                    continue
+                    rec.cls("installed_plugin_without_plugin_metaclass")  # (harvesters, packers, widgets: plain ABCs)
                 try:
                     meta("SubV", (cv,), {"__module__": __name__})
                 except TypeError as e:
